@@ -333,6 +333,27 @@ fn levels_valid(levels: &[Level]) -> bool {
             // a condition on `c1` whose own branch redefines `c1` in the same scope is a paradox
             // (the selected branch changes the condition), not a construct with a hand expansion
             Level::If(Cond::C1Eq2, IfShape::ThenElseDefs | IfShape::InElseDefs) => return false,
+            // the same paradox one or two levels down: the selected branch of a conditional that stands in the same
+            // scope (only `.if`, `.const` and a sibling invocation in between, none of which opens a scope) defines `c1`
+            Level::If(Cond::C1Eq2, _) => {
+                for inner in &levels[i + 1..] {
+                    match inner {
+                        Level::If(c, shape) => {
+                            let truth = matches!(c, Cond::Lit1 | Cond::DefX | Cond::Late1);
+                            let defs_selected = match shape {
+                                IfShape::ThenElseDefs => !truth,
+                                IfShape::InElseDefs => truth,
+                                _ => false,
+                            };
+                            if defs_selected {
+                                return false;
+                            }
+                        }
+                        Level::Const { .. } | Level::SiblingMacro => {}
+                        _ => break,
+                    }
+                }
+            }
             // a label directly in a loop body (`.if` and `.const` do not open a scope)
             Level::Braces { labelled: true } => {
                 let mut j = i;
